@@ -1,4 +1,186 @@
-import Crs.Update
+/-
+  C08 — processing with --all equals processing each file on its own, in any order.
+
+  Model: `Crs.Cli` (formatAll, renumberAll, copyrightAll, runFile / updateRule / updateAll).
+  * format (and the other two line tools): --all IS the per-file function applied to every target
+    (`C08_format_each`), hence independent of the traversal order (`C08_format_perm`).
+  * update/compare: the regex computed for a file does not depend on the process-wide state earlier files left
+    behind (`C08_run_ignores_globals`: a new context and a stack reset per file), and what earlier files wrote —
+    a rules file — is not among the inputs of later files (`C08_update_inputs_untouched`), so each file's regex in
+    an --all run is the regex of a single run on the original tree (`C08_update_regex_same`).
+  NOT proved: that the rules-file splices of different rules commute (needed for "any order" of update at the level of
+  rules-file bytes; follows from C11_frame when the rules address different lines) — checked by the oracle
+  (--all vs single invocations in random orders on the real binary).
+-/
+import Crs.Cli
 namespace Crs.Props
-theorem C08_placeholder : True := trivial
+open Crs Crs.Cli Crs.Format
+
+/-! ### the line tools: --all is a map -/
+
+def formatEach (check : Bool) (lint : Bytes → Bool) (pb : Bytes × Bytes) : Bytes × Bytes :=
+  if isFormatTarget pb.1 then (pb.1, (formatOne check (lint pb.1) pb.2).1) else pb
+
+/-- **C08 (format).** When no file makes the parser panic, `--all` leaves in every file exactly what formatting that
+    file alone leaves in it. -/
+theorem C08_format_each (check : Bool) (lint : Bytes → Bool) (t : Tree)
+    (hp : ∀ pb ∈ t, isFormatTarget pb.1 = true → parseable pb.2 = true) :
+    (formatAll check lint t).tree = t.map (formatEach check lint) := by
+  induction t with
+  | nil => rfl
+  | cons pb rest ih =>
+    obtain ⟨p, b⟩ := pb
+    have ih' := ih (fun x hx => hp x (by simp [hx]))
+    simp only [formatAll, List.map_cons, formatEach]
+    by_cases ht : isFormatTarget p = true
+    · have := hp (p, b) (by simp) ht
+      simp only at this
+      simp only [ht, if_true, this, Bool.not_true, Bool.false_eq_true, if_false, ih']
+    · have ht' : isFormatTarget p = false := by simpa using ht
+      simp only [ht', Bool.false_eq_true, if_false, ih']
+
+/-- **C08 (format, traversal order).** Visiting the files in another order gives the same files. -/
+theorem C08_format_perm (check : Bool) (lint : Bytes → Bool) (t t' : Tree) (h : t.Perm t')
+    (hp : ∀ pb ∈ t, isFormatTarget pb.1 = true → parseable pb.2 = true) :
+    (formatAll check lint t).tree.Perm (formatAll check lint t').tree := by
+  rw [C08_format_each check lint t hp, C08_format_each check lint t' (fun pb hpb => hp pb (h.mem_iff.mpr hpb))]
+  exact h.map _
+
+def renumberEach (check : Bool) (pb : Bytes × Bytes) : Bytes × Bytes :=
+  match renumberId? pb.1 with
+  | some id => (pb.1, (renumberOne check id pb.2).1)
+  | none => pb
+
+theorem C08_renumber_each (check : Bool) (t : Tree) : (renumberAll check t).tree = t.map (renumberEach check) := by
+  induction t with
+  | nil => rfl
+  | cons pb rest ih =>
+    obtain ⟨p, b⟩ := pb
+    simp only [renumberAll, List.map_cons, renumberEach]
+    cases h : renumberId? p <;> simp only [ih]
+
+theorem C08_renumber_perm (check : Bool) (t t' : Tree) (h : t.Perm t') :
+    (renumberAll check t).tree.Perm (renumberAll check t').tree := by
+  rw [C08_renumber_each, C08_renumber_each]; exact h.map _
+
+def copyrightEach (v y : Bytes) (pb : Bytes × Bytes) : Bytes × Bytes :=
+  if isCopyrightTarget pb.1 then (pb.1, Crs.Copyright.updateRules v y pb.2) else pb
+
+theorem C08_copyright_each (v y : Bytes) (t : Tree) : (copyrightAll v y t).tree = t.map (copyrightEach v y) := by
+  induction t with
+  | nil => rfl
+  | cons pb rest ih =>
+    obtain ⟨p, b⟩ := pb
+    simp only [copyrightAll, List.map_cons, copyrightEach]
+    split <;> simp only [ih]
+
+/-! ### update: nothing computed for one file reaches another -/
+
+/-- **C08 (no process-wide leak).** The regex of a run does not depend on the processor stack and stash earlier runs
+    left behind: it is `generate` on the file's bytes. -/
+theorem C08_run_ignores_globals (E : Asm.Engine) (cfg : Asm.Config) (o1 o2 : Parser.Ord) (g g' : Globals) (fs : Parser.Fs) (input : Bytes) :
+    (runFile E cfg o1 o2 g fs input).2 = (runFile E cfg o1 o2 g' fs input).2 ∧
+    (runFile E cfg o1 o2 g fs input).2 = Asm.generate E fs cfg o1 o2 input := ⟨rfl, rfl⟩
+
+theorem setFile_lookup_other (p q c : Bytes) (t : Tree) (h : q ≠ p) : lookup q (setFile p c t) = lookup q t := by
+  induction t with
+  | nil => rfl
+  | cons x rest ih =>
+    obtain ⟨r, b⟩ := x
+    simp only [setFile]
+    by_cases hr : r = p
+    · subst hr
+      have : (r == r) = true := by simp
+      simp only [this, if_true, lookup]
+      have : (r == q) = false := by simp; exact fun e => h e.symm
+      simp [this]
+    · have : (r == p) = false := by simpa using hr
+      simp only [this, Bool.false_eq_true, if_false, lookup, ih]
+
+theorem setFile_paths (p c : Bytes) (t : Tree) : (setFile p c t).map Prod.fst = t.map Prod.fst := by
+  induction t with
+  | nil => rfl
+  | cons x rest ih =>
+    obtain ⟨r, b⟩ := x
+    simp only [setFile]
+    split
+    · rename_i h; simp only [List.map_cons]
+    · simp only [List.map_cons, ih]
+
+theorem setFile_filter_other (f : Bytes → Bool) (p c : Bytes) (t : Tree) (hp : f p = false) :
+    (setFile p c t).filter (fun pb => f pb.1) = t.filter (fun pb => f pb.1) := by
+  induction t with
+  | nil => rfl
+  | cons x rest ih =>
+    obtain ⟨r, b⟩ := x
+    simp only [setFile]
+    by_cases hr : (r == p) = true
+    · have e : r = p := by simpa using hr
+      subst e
+      simp only [hr, if_true, List.filter_cons, hp, Bool.false_eq_true, if_false]
+    · have hr' : (r == p) = false := by simpa using hr
+      simp only [hr', Bool.false_eq_true, if_false, List.filter_cons, ih]
+
+theorem rulesFileOf_prefix (t : Tree) (id rp : Bytes) (h : rulesFileOf t id = some rp) : hasPrefix b!"rules/" rp = true := by
+  unfold rulesFileOf at h
+  simp only at h
+  split at h
+  · rename_i pb hf
+    simp only [Option.some.injEq] at h
+    subst h
+    have : pb ∈ List.filter (fun pb => hasPrefix b!"rules/" pb.1 && !(pb.1.drop 6).contains '/' && Update.contains (['-'] ++ id.take 3 ++ ['-']) (pb.1.drop 6)) t := by
+      rw [hf]; simp
+    have := (List.mem_filter.mp this).2
+    simp only [Bool.and_eq_true] at this
+    exact this.1.1
+  · simp at h
+
+theorem rules_not_assembly (rp : Bytes) (h : hasPrefix b!"rules/" rp = true) :
+    hasPrefix b!"regex-assembly/include/" rp = false ∧ hasPrefix b!"regex-assembly/exclude/" rp = false ∧ isFormatTarget rp = false := by
+  cases rp with
+  | nil => simp [hasPrefix, List.isPrefixOf] at h
+  | cons c cs =>
+    have hc : c = 'r' := by simp [hasPrefix, List.isPrefixOf] at h; exact h.1.symm ▸ rfl
+    subst hc
+    cases cs with
+    | nil => simp [hasPrefix, List.isPrefixOf] at h
+    | cons d ds =>
+      have hd : d = 'u' := by simp [hasPrefix, List.isPrefixOf] at h; exact h.1.symm ▸ rfl
+      subst hd
+      simp [hasPrefix, List.isPrefixOf, isFormatTarget, inDir]
+
+/-- **C08 (what one file's update writes is no input of another's).** A successful update leaves the include
+    directories, every assembly file and the set of paths as they were: only the rules file changed. -/
+theorem C08_update_inputs_untouched (E : Asm.Engine) (cfg : Asm.Config) (o1 o2 : Parser.Ord) (g : Globals) (t t' : Tree)
+    (input id : Bytes) (k : Nat) (h : (updateRule E cfg o1 o2 g t input id k).2 = .ok t') :
+    fsOf t' = fsOf t ∧ t'.map Prod.fst = t.map Prod.fst ∧
+    t'.filter (fun pb => isFormatTarget pb.1) = t.filter (fun pb => isFormatTarget pb.1) := by
+  unfold updateRule at h
+  simp only at h
+  split at h
+  · simp at h
+  · split at h
+    · simp at h
+    · rename_i rp hrp
+      split at h
+      · simp at h
+      · split at h
+        · simp at h
+        · simp only [Except.ok.injEq] at h
+          subst h
+          obtain ⟨n1, n2, n3⟩ := rules_not_assembly rp (rulesFileOf_prefix t id rp hrp)
+          refine ⟨?_, setFile_paths _ _ _, setFile_filter_other isFormatTarget rp _ t n3⟩
+          unfold fsOf
+          have e1 := setFile_filter_other (fun p => hasPrefix b!"regex-assembly/include/" p && !(p.drop 23).contains '/') rp ‹_› t (by simp [n1])
+          have e2 := setFile_filter_other (fun p => hasPrefix b!"regex-assembly/exclude/" p && !(p.drop 23).contains '/') rp ‹_› t (by simp [n2])
+          rw [e1, e2]
+
+/-- **C08 (same regex as alone).** After any successful update of another rule, the regex computed for a file is the one
+    a single invocation on the original tree computes. -/
+theorem C08_update_regex_same (E : Asm.Engine) (cfg : Asm.Config) (o1 o2 : Parser.Ord) (g g1 g2 : Globals) (t t' : Tree)
+    (input id : Bytes) (k : Nat) (h : (updateRule E cfg o1 o2 g t input id k).2 = .ok t') (other : Bytes) :
+    (runFile E cfg o1 o2 g1 (fsOf t') other).2 = (runFile E cfg o1 o2 g2 (fsOf t) other).2 := by
+  rw [(C08_update_inputs_untouched E cfg o1 o2 g t t' input id k h).1]
+  rfl
+
 end Crs.Props
